@@ -717,6 +717,66 @@ def main(out_path):
           '/-- their order in the Rust text: create_recv_pending_htlc_info (up to `Ok(PendingHTLCInfo ..)`), then process_receive_htlcs -/',
           'def recvStages : List RecvStage := [%s]' % ', '.join('.' + n_ for n_ in order), '']
 
+    # ---- blinded receive: the payment_constraints test of create_recv_pending_htlc_info's BlindedReceive arm -----------------
+    _, _, cbody_ = find_fn(op, 'check_blinded_payment_constraints')
+    mcb = re.fullmatch(r'\{ if (.+?) \{ return Err\(\(\)\) \} Ok\(\(\)\) \}', norm(strip_comments(cbody_)))
+    if not mcb: raise TranslateError("check_blinded_payment_constraints: shape changed")
+    ccond = mcb.group(1)
+    check_vars(ccond.replace('constraints.', ''), {'amt_msat', 'cltv_expiry', 'htlc_minimum_msat', 'max_cltv_expiry'}, 'check_blinded_payment_constraints')
+    emc = Emitter(fields={'constraints.htlc_minimum_msat': 'htlc_minimum_msat', 'constraints.max_cltv_expiry': 'max_cltv_expiry'}, narrow=lambda t: False)
+    _, _, body = find_fn(op, 'create_recv_pending_htlc_info')
+    cb_ = strip_comments(body)
+    ib = cb_.find('onion_utils::Hop::BlindedReceive {')
+    if ib < 0: raise TranslateError("create_recv_pending_htlc_info: BlindedReceive arm not found")
+    ka = cb_.index('=> {', ib) + 3
+    barm = norm(cb_[ka:match_brace(cb_, ka)])
+    mca = re.match(r'\{ check_blinded_payment_constraints\( (\w+), (\w+), &payment_constraints,? ?\) \.map_err\(\|\(\)\| \{ InboundHTLCErr \{ reason: LocalHTLCFailureReason::(\w+),', barm)
+    if not mca: raise TranslateError("create_recv_pending_htlc_info: BlindedReceive arm no longer starts with check_blinded_payment_constraints(..).map_err(..): %r" % barm[:120])
+    if not re.search(r'\}\)\?; let payment_data = msgs::FinalOnionHopData \{ payment_secret, total_msat \};', barm): raise TranslateError("BlindedReceive: the constraints test no longer returns (`?`) before payment_data is built")
+    barg = (mca.group(1), mca.group(2))
+    for a_ in barg:
+        if a_ not in ('sender_intended_htlc_amt_msat', 'amt_msat', 'cltv_expiry', 'cltv_expiry_height'): raise TranslateError("BlindedReceive: check_blinded_payment_constraints called with `%s`" % a_)
+    if not re.search(r'\(Some\(payment_data\), keysend_preimage, custom_tlvs, sender_intended_htlc_amt_msat, cltv_expiry_height, None, Some\(payment_context\), intro_node_blinding_point\.is_none\(\), true, invoice_request, None\) \}$', barm):
+        raise TranslateError("BlindedReceive: the tuple handed to the common tests changed")
+    L += ['/-- onion_payment.rs::check_blinded_payment_constraints (translated): `if %s { return Err(()) }` -/' % ccond,
+          'def blindedConstraintsViolated (amt_msat cltv_expiry htlc_minimum_msat max_cltv_expiry : Nat) : Bool :=', '  ' + emc.e(parse_expr(ccond)), '',
+          '/-- the BlindedReceive arm of create_recv_pending_htlc_info: `check_blinded_payment_constraints(%s, %s, &payment_constraints)` failing' % barg,
+          '    means `%s` (amt_msat / cltv_expiry: of the HTLC; sender_intended_htlc_amt_msat / cltv_expiry_height: of the onion) -/' % mca.group(3),
+          'def blindedReceiveRefuses (sender_intended_htlc_amt_msat amt_msat cltv_expiry cltv_expiry_height htlc_minimum_msat max_cltv_expiry : Nat) : Bool :=',
+          '  blindedConstraintsViolated %s %s htlc_minimum_msat max_cltv_expiry' % barg, '',
+          'def reasonBlindedReceive : FailReason := .%s' % (mca.group(3)[0].lower() + mca.group(3)[1:]), '']
+
+    # ---- reload: what `impl Readable for (ClaimableHTLC, u64)` reads back of what `impl Writeable for ClaimableHTLC` wrote --------
+    iw = cm.find('fn write_claimable_htlc<')
+    ir = cm.find('impl Readable for (ClaimableHTLC, u64)')
+    if iw < 0 or ir < 0: raise TranslateError("write_claimable_htlc / impl Readable for (ClaimableHTLC, u64) not found")
+    wtxt = norm(strip_comments(cm[iw:ir])); rtxt = strip_comments(cm[ir:match_brace(cm, cm.index('{', ir))])
+    wmap = dict((int(n_), f_) for n_, f_ in re.findall(r'\((\d+), htlc\.(?:mpp_part\.)?(\w+), (?:required|option)\)', wtxt))
+    rmap = dict((v_, (int(n_), k_)) for n_, v_, k_ in re.findall(r'\((\d+), (\w+), (required|option)\)', norm(rtxt)))
+    wreq = dict((int(n_), k_) for n_, k_ in re.findall(r'\((\d+), htlc\.(?:mpp_part\.)?\w+, (required|option)\)', wtxt))
+    kl = rtxt.find('Ok((ClaimableHTLC {')
+    if kl < 0: raise TranslateError("Readable for ClaimableHTLC: `Ok((ClaimableHTLC {` not found")
+    kb_ = rtxt.index('{', kl)
+    lit_txt = rtxt[kb_:match_brace(rtxt, kb_)]
+    for raw_ in ('prev_hop: prev_hop.0.unwrap(),',): lit_txt = lit_txt.replace(raw_, '')
+    lit_txt = re.sub(r'onion_payload,', '', lit_txt).replace('.0.unwrap()', '')
+    rl = parse_expr('ClaimableHTLC ' + lit_txt)
+    outer_ = dict(rl[2]); inner_ = dict(outer_['mpp_part'][2])
+    if not re.search(r'let value = value_ser\.0\.unwrap\(\);', rtxt): raise TranslateError("Readable for ClaimableHTLC: `let value = value_ser.0.unwrap();` changed")
+    lets_r = []
+    for v_, (n_, k_) in sorted(rmap.items(), key=lambda kv: kv[1][0]):
+        if n_ not in wmap or wmap[n_] not in PART_FIELDS: continue
+        src_ = 'w.' + wmap[n_]
+        if k_ == 'option' and wreq.get(n_) == 'required': src_ = '(some %s)' % src_
+        lets_r.append('  let %s := %s' % (v_, src_))
+    emr = emitter()
+    fl_ = [(n_, emr.e(inner_[n_])) for n_ in ('value', 'sender_intended_value', 'timer_ticks', 'total_value_received', 'cltv_expiry')]
+    fl_.append(('counterparty_skimmed_fee_msat', emr.e(outer_['counterparty_skimmed_fee_msat'])))
+    L += ['/-- what a part is after the ChannelManager was written and read back: TLV numbers paired between `write_claimable_htlc`',
+          '    and `impl Readable for (ClaimableHTLC, u64)`, the field expressions of the read side translated (`w`: the part as written) -/',
+          'def reloadPart (w : PartG) : PartG :='] + lets_r + ['  let value := value_ser',
+          '  { ' + ', '.join('%s := %s' % f_ for f_ in fl_) + ' }', '']
+
     # ---- the fail-back sites of the accumulator: WHICH HTLCs are failed, with WHICH LocalHTLCFailureReason ---------
     lcv = lambda n: n[0].lower() + n[1:]
     mi = re.search(r'impl Into<LocalHTLCFailureReason> for FailureCode\s*\{', cm)
